@@ -9,7 +9,7 @@
 (***************************************************************************)
 EXTENDS FileStream, Json
 
-CONSTANTS Paths, Chunks, MaxSteps, MaxFile, Emit
+CONSTANTS Paths, Chunks, MaxSteps, MaxFile, Emit, Modes
 
 VARIABLES h, disk, opens, closes, last, steps, act
 vars == <<h, disk, opens, closes, last, steps, act>>
@@ -24,13 +24,13 @@ Open(p, m) == /\ Tick([op |-> "open", path |-> p, mode |-> m])
               /\ closes' = IF h.open THEN closes + 1 ELSE closes                 \* reopening closes the old stream first
               /\ opens' = opens + 1                                                \* (files always exist here: both paths are on the disk)
               /\ disk' = IF Truncates(m) THEN [disk EXCEPT ![p] = <<>>] ELSE disk
-              /\ h' = [open |-> TRUE, path |-> p, rd |-> CanRead(m), wr |-> CanWrite(m), pos |-> 0, eof |-> FALSE]
+              /\ h' = OpenedAt(p, m, IF Truncates(m) THEN <<>> ELSE disk[p])
               /\ Res(0, "", <<>>)
 Write(seed, n) == LET a == [op |-> "write", seed |-> seed, n |-> n] IN
   IF ~h.open \/ (~h.wr /\ n > 0) THEN Refuse(a)
   ELSE /\ Tick(a) /\ Len(disk[h.path]) + n <= MaxFile
-       /\ disk' = [disk EXCEPT ![h.path] = Overwrite(@, h.pos, Pattern(seed, n))]
-       /\ h' = [h EXCEPT !.pos = @ + n] /\ Res(IF n = 0 THEN 0 ELSE 1, "", <<>>) /\ UNCHANGED <<opens, closes>>
+       /\ disk' = [disk EXCEPT ![h.path] = Overwrite(@, WritePos(h, @), Pattern(seed, n))]
+       /\ h' = [h EXCEPT !.pos = (IF n = 0 THEN @ ELSE WritePos(h, disk[h.path]) + n)] /\ Res(IF n = 0 THEN 0 ELSE 1, "", <<>>) /\ UNCHANGED <<opens, closes>>
 Read(n) == LET a == [op |-> "read", n |-> n] IN
   IF ~h.open THEN Refuse(a)
   ELSE /\ Tick(a) /\ h.rd
@@ -50,7 +50,7 @@ Flush == IF ~h.open THEN Refuse([op |-> "flush"]) ELSE Tick([op |-> "flush"]) /\
 Close == IF ~h.open THEN Refuse([op |-> "close"])
          ELSE Tick([op |-> "close"]) /\ h' = Closed /\ closes' = closes + 1 /\ Res(0, "", <<>>) /\ UNCHANGED <<disk, opens>>
 
-Next == \/ \E p \in Paths, m \in 1..4 : Open(p, m)
+Next == \/ \E p \in Paths, m \in Modes : Open(p, m)
         \/ \E n \in Chunks, sd \in {1, 2} : Write(sd, n)
         \/ \E n \in Chunks : Read(n)
         \/ \E off \in -3..3, o \in 0..2 : Seek(off, o)
